@@ -125,6 +125,9 @@ static inline uint32_t ts_node__relevant_child_count(
   bool include_anonymous
 ) {
   Subtree tree = ts_node__subtree(self);
+  // Only a hidden node's children count as children of its parent. A visible
+  // node that is skipped because it is anonymous keeps its children to itself.
+  if (ts_node__is_relevant(self, true)) return 0;
   if (ts_subtree_child_count(tree) > 0) {
     if (include_anonymous) {
       return tree.ptr->visible_child_count;
